@@ -157,6 +157,7 @@ func TestVerifC12(t *testing.T) {
 	cs := codecs()
 
 	checkString := func(stratum string, i int, s []byte) {
+		s = append(make([]byte, 0, len(s)), s...) // capacity == length (a prefix of a longer string has spare capacity that hides over-reads)
 		mv, mn, mok := mDecode(s)
 		for _, c := range cs {
 			var v uint64
